@@ -2,3 +2,4 @@ import XsdataModel.Py.Basic
 import XsdataModel.Py.TblEnv
 import XsdataModel.Tables
 import XsdataModel.Lex.Dates
+import XsdataModel.Code.Pycode
